@@ -382,8 +382,12 @@ func init() {
 				}
 				emitKeygen(c, "frost-taproot", ids, t, ps, res, nil)
 			case 2:
-				cr, cs, res := doernerKeygen(c, ids[0], ids[1], sid)
-				emitKeygen(c, "doerner", ids[:2], 1, doernerJ(ids[0], ids[1], cr, cs), res, nil)
+				ra, rb := ids[0], ids[1]
+				if c.Intn(2) == 0 {
+					ra, rb = rb, ra // the receiver's id sorts after the sender's
+				}
+				cr, cs, res := doernerKeygen(c, ra, rb, sid)
+				emitKeygen(c, "doerner", ids[:2], 1, doernerJ(ra, rb, cr, cs), res, nil)
 			case 3:
 				if c.Tier != "thorough" && i > 8 {
 					continue
@@ -440,9 +444,15 @@ func init() {
 					emitKeygen(c, "frost-taproot", ids, t, nil, res, nil)
 				}
 			case 2:
-				cr, cs, _ := doernerKeygen(c, ids[0], ids[1], sid)
+				ra, rb := ids[0], ids[1]
+				if c.Intn(2) == 0 {
+					ra, rb = rb, ra // the receiver's id sorts after the sender's
+				}
+				cr, cs, _ := doernerKeygen(c, ra, rb, sid)
 				if cr != nil && cs != nil {
-					doernerSign(c, ids[0], ids[1], cr, cs, msg, sid, "fresh")
+					doernerSign(c, ra, rb, cr, cs, msg, sid, "fresh")
+					// the signing ids are free parameters: also the other order, and a digest longer than the group order
+					doernerSign(c, rb, ra, cr, cs, c.Bytes([]int{33, 48, 64}[c.Intn(3)]), c.Bytes(8), "swapped-ids-long-digest")
 				}
 			case 3, 4:
 				if c.Tier != "thorough" && i > 12 {
@@ -538,6 +548,10 @@ func newMaterial(c *Ctx, kind string, n, t int, sid []byte) (*material, sessionR
 		m.cm, m.ids = test.GenerateConfig(secp, n, t, c.Rng, nil)
 	case "doerner":
 		m.ids = genIDs(c, 2)
+		if c.Intn(2) == 0 {
+			// m.ids[0] is the receiver throughout: let it also be the party whose id sorts LAST
+			m.ids = party.IDSlice{m.ids[1], m.ids[0]}
+		}
 		m.t = 1
 		m.dr, m.ds, res = doernerKeygen(c, m.ids[0], m.ids[1], sid)
 	}
@@ -545,6 +559,46 @@ func newMaterial(c *Ctx, kind string, n, t int, sid []byte) (*material, sessionR
 }
 
 func (m *material) refresh(c *Ctx, sid []byte) (*material, sessionResult) {
+	return m.refreshBy(c, sid, m.ids)
+}
+
+// refreshBy: the refresh is run by `by` (all shareholders, or - FROST - a strict subset of at least t+1 of them: the
+// parties left out keep an entry in the public table, which has to move with the new sharing)
+func (m *material) refreshBy(c *Ctx, sid []byte, by party.IDSlice) (*material, sessionResult) {
+	if len(by) < len(m.ids) && (m.kind == "frost" || m.kind == "frost-taproot") {
+		sub := &material{kind: m.kind, ids: by, t: m.t, fr: m.fr, tp: m.tp}
+		out := &material{kind: m.kind, ids: by, t: m.t}
+		hs := map[party.ID]protocol.Handler{}
+		for _, id := range by {
+			var st protocol.StartFunc
+			if m.kind == "frost" {
+				st = frost.Refresh(sub.fr[id], by)
+			} else {
+				st = frost.RefreshTaproot(sub.tp[id], by)
+			}
+			h, err := protocol.NewMultiHandler(st, sid)
+			if err != nil {
+				return out, sessionResult{Panic: "refresh start: " + err.Error()}
+			}
+			hs[id] = h
+		}
+		res := runSessions(c, hs, randOrder(c), nil)
+		out.fr, out.tp = map[party.ID]*frost.Config{}, map[party.ID]*frost.TaprootConfig{}
+		for id, r := range res.Results {
+			switch v := r.(type) {
+			case *frost.Config:
+				out.fr[id] = v
+			case *frost.TaprootConfig:
+				out.tp[id] = v
+			}
+		}
+		if m.kind == "frost" {
+			out.tp = nil
+		} else {
+			out.fr = nil
+		}
+		return out, res
+	}
 	out := &material{kind: m.kind, ids: m.ids, t: m.t}
 	hs := map[party.ID]protocol.Handler{}
 	var res sessionResult
@@ -782,7 +836,17 @@ func init() {
 			}
 			for s := 0; s < steps; s++ {
 				before := cur.dump()
-				nxt, res := cur.refresh(c, c.Bytes(8))
+				by := cur.ids
+				if (kind == "frost" || kind == "frost-taproot") && len(cur.ids) > cur.t+1 && c.Intn(2) == 0 {
+					// a strict subset of the shareholders refreshes (at least t+1 of them)
+					by = party.NewIDSlice(subset(c, cur.ids, cur.t+1+c.Intn(len(cur.ids)-cur.t-1)))
+					sub := &material{kind: kind, ids: by, t: cur.t, fr: cur.fr, tp: cur.tp}
+					before = sub.dump()
+				}
+				nxt, res := cur.refreshBy(c, c.Bytes(8), by)
+				if len(by) < len(cur.ids) {
+					cur = &material{kind: kind, ids: by, t: cur.t, fr: cur.fr, tp: cur.tp}
+				}
 				in := J{"kind": kind, "n": len(cur.ids), "t": cur.t, "ids": idsHex(cur.ids), "before": before, "parties": nxt.dump(),
 					"before_reread": cur.dump(), "errors": errsJ(res), "step": s}
 				var impl interface{} = J{"ok": true}
